@@ -56,3 +56,74 @@ package v4
 //@   trusted
 //@   ensures res == ctKeyProto(recv)
 //@   assigns nothing
+
+//@ -- ---------------------------------------------------------------- C13: conntrack map key/value layout
+//@ -- Byte offsets the Go accessors/encoders use into the conntrack map value must equal the kernel program's
+//@ -- struct calico_ct_value / calico_ct_key / calico_ct_leg, for the IPv4 and IPv6 builds.
+//@ layout ctKeySize: KeySize == csizeof("struct calico_ct_key") && KeyV6Size == csizeof6("struct calico_ct_key")
+//@   property C13
+//@ layout ctValueSize: ValueSize == csizeof("struct calico_ct_value") && ValueV6Size == csizeof6("struct calico_ct_value")
+//@   property C13
+//@ layout ctLegSize: legSize == csizeof("struct calico_ct_leg") && legSize == csizeof6("struct calico_ct_leg")
+//@   property C13
+//@ layout VoRSTSeen: VoRSTSeen == coffsetof("struct calico_ct_value", "rst_seen")
+//@   property C13
+//@ layout VoLastSeen: VoLastSeen == coffsetof("struct calico_ct_value", "last_seen")
+//@   property C13
+//@ layout VoType: VoType == coffsetof("struct calico_ct_value", "type")
+//@   property C13
+//@ layout VoFlags: VoFlags == coffsetof("struct calico_ct_value", "flags")
+//@   property C13
+//@ layout VoFlags3: VoFlags3 == coffsetof("struct calico_ct_value", "flags3")
+//@   property C13
+//@ layout VoFlags4: VoFlags4 == coffsetof("struct calico_ct_value", "flags4")
+//@   property C13
+//@ layout VoFlags2: VoFlags2 == coffsetof("struct calico_ct_value", "flags2")
+//@   property C13
+//@ layout VoRevKey: VoRevKey == coffsetof("struct calico_ct_value", "nat_rev_key")
+//@   property C13
+//@ layout VoLegAB: VoLegAB == coffsetof("struct calico_ct_value", "a_to_b")
+//@   property C13
+//@ layout VoLegBA: VoLegBA == coffsetof("struct calico_ct_value", "b_to_a")
+//@   property C13
+//@ layout VoTunIP: VoTunIP == coffsetof("struct calico_ct_value", "tun_ip")
+//@   property C13
+//@ layout VoOrigIP: VoOrigIP == coffsetof("struct calico_ct_value", "orig_ip")
+//@   property C13
+//@ layout VoOrigPort: VoOrigPort == coffsetof("struct calico_ct_value", "orig_port")
+//@   property C13
+//@ layout VoOrigSPort: VoOrigSPort == coffsetof("struct calico_ct_value", "orig_sport")
+//@   property C13
+//@ layout VoOrigSIP: VoOrigSIP == coffsetof("struct calico_ct_value", "orig_sip")
+//@   property C13
+//@ layout VoNATSPort: VoNATSPort == coffsetof("struct calico_ct_value", "nat_sport")
+//@   property C13
+//@ layout VoRSTSeenV6: VoRSTSeenV6 == coffsetof6("struct calico_ct_value", "rst_seen")
+//@   property C13
+//@ layout VoLastSeenV6: VoLastSeenV6 == coffsetof6("struct calico_ct_value", "last_seen")
+//@   property C13
+//@ layout VoTypeV6: VoTypeV6 == coffsetof6("struct calico_ct_value", "type")
+//@   property C13
+//@ layout VoFlagsV6: VoFlagsV6 == coffsetof6("struct calico_ct_value", "flags")
+//@   property C13
+//@ layout VoRevKeyV6: VoRevKeyV6 == coffsetof6("struct calico_ct_value", "nat_rev_key")
+//@   property C13
+//@ layout VoLegABV6: VoLegABV6 == coffsetof6("struct calico_ct_value", "a_to_b")
+//@   property C13
+//@ layout VoLegBAV6: VoLegBAV6 == coffsetof6("struct calico_ct_value", "b_to_a")
+//@   property C13
+//@ layout VoTunIPV6: VoTunIPV6 == coffsetof6("struct calico_ct_value", "tun_ip")
+//@   property C13
+//@ layout VoOrigIPV6: VoOrigIPV6 == coffsetof6("struct calico_ct_value", "orig_ip")
+//@   property C13
+//@ layout VoOrigPortV6: VoOrigPortV6 == coffsetof6("struct calico_ct_value", "orig_port")
+//@   property C13
+//@ layout VoOrigSPortV6: VoOrigSPortV6 == coffsetof6("struct calico_ct_value", "orig_sport")
+//@   property C13
+//@ layout VoOrigSIPV6: VoOrigSIPV6 == coffsetof6("struct calico_ct_value", "orig_sip")
+//@   property C13
+//@ layout VoNATSPortV6: VoNATSPortV6 == coffsetof6("struct calico_ct_value", "nat_sport")
+//@   property C13
+//@ -- flags2/3/4 are shared between the v4 and v6 value layouts
+//@ layout VoFlags234V6: VoFlags2 == coffsetof6("struct calico_ct_value", "flags2") && VoFlags3 == coffsetof6("struct calico_ct_value", "flags3") && VoFlags4 == coffsetof6("struct calico_ct_value", "flags4")
+//@   property C13
